@@ -121,12 +121,12 @@ def binaries():
 
 
 def scalars(texts=None):
-    texts = texts or text()
+    texts = texts if texts is not None else text()
     return st.one_of(st.none(), st.booleans(), ints(), floats(), texts, texts, texts, binaries(), dates(), datetimes())
 
 
 def keys(texts=None):
-    texts = texts or key_text()
+    texts = texts if texts is not None else key_text()
     return st.one_of(st.none(), st.booleans(), ints(), st.floats(allow_nan=False), texts, texts, texts, binaries(),
                      dates(), datetimes())
 
